@@ -413,6 +413,36 @@ func genC19(seed int64, tier string) []caseOut {
 			}
 		}
 	}
+	// 2d. a create request whose delta (patches with keys of every purpose, services, also-known-as)
+	// has every value replaced by values of other types, with the delta hash and the suffix recomputed:
+	// whatever the validator lets through reaches the composer and the transformer, as a request and
+	// as a long-form DID
+	{
+		fr := rand.New(rand.NewSource(23))
+		kp := genKey(fr, "P-256")
+		ed := genKey(fr, "Ed25519")
+		patchesTree := A{
+			M{"action": "replace", "document": M{
+				"publicKeys": A{docKey("key1", kp, "authentication", "assertionMethod", "keyAgreement", "capabilityDelegation", "capabilityInvocation"),
+					M{"id": "key2", "type": "Ed25519VerificationKey2018", "purposes": A{"authentication", "keyAgreement"}, "publicKeyJwk": cleanJWK(ed)}},
+				"services": A{docService("svc1", "LinkedDomains", "https://svc.example/1"),
+					M{"id": "svc2", "type": "T", "serviceEndpoint": A{"https://svc.example/2", M{"uri": "https://svc.example/3"}}}}}},
+			M{"action": "add-also-known-as", "uris": A{"https://aka.example/1"}},
+			M{"action": "add-public-keys", "publicKeys": A{docKey("key3", kp, "authentication")}},
+		}
+		recC := commitmentOf(genKey(fr, "P-256").jwk(), 18)
+		updC := commitmentOf(genKey(fr, "P-256").jwk(), 18)
+		lim := 240
+		if tier == "thorough" {
+			lim = 100000
+		}
+		for _, c := range corruptions(normJSON(patchesTree), r, lim) {
+			delta := M{"updateCommitment": updC, "patches": c}
+			sd := M{"deltaHash": modelHash(delta, 18), "recoveryCommitment": recC}
+			runAll("create-rehashed-confusion", jcs(M{"type": "create", "suffixData": sd, "delta": delta}))
+			runAll("create-rehashed-confusion-long-form", []byte("did:ion:"+modelHash(sd, 18)+":"+b64(jcs(M{"suffixData": sd, "delta": delta}))))
+		}
+	}
 	// 3. hostile patches
 	{
 		// first in a child process: an input that kills the process must not take the run down
@@ -659,7 +689,9 @@ func patchSequences(r *rand.Rand, n int) []patchSeq {
 	key := func(id string) string {
 		return `{"id":"` + id + `","type":"JsonWebKey2020","purposes":["authentication"],"publicKeyJwk":{"kty":"EC","crv":"P-256","x":"PUymIqdtF_qxaAqPABSw-C-owT1KYYQbsMKFM-L9fJA","y":"nM84jDHCMOTGTh_ZdHq4dBBdo4Z5PkEOW9jA8z8IsGc"}}`
 	}
-	svc := func(id string) string { return `{"id":"` + id + `","type":"T","serviceEndpoint":"https://example.com/` + id + `"}` }
+	svc := func(id string) string {
+		return `{"id":"` + id + `","type":"T","serviceEndpoint":"https://example.com/` + id + `"}`
+	}
 	for _, junk := range []string{`"not-an-entry"`, `5`, `null`, `["x"]`, `true`} {
 		for _, shape := range []string{"%[1]s,%[2]s", "%[2]s,%[1]s", "%[2]s,%[1]s,%[3]s", "%[1]s,%[1]s,%[2]s,%[3]s"} {
 			ks := fmt.Sprintf(shape, junk, key("key1"), key("key2"))
